@@ -530,7 +530,7 @@ def check(prop: str, tier: str, seed: int) -> int:
     run.cov["distinct_nontrivial"] = len(distinct)
     run.cov["must_classes"] = musts
     run.cov["traces_validated_against_impl"] = len(cases)
-    if prop in ("C02", "C03"):
+    if prop in ("C01", "C02", "C03"):
         from . import checks_proto
         checks_proto.wire_level(run, prop, tier, rnd)
     k = len(cases) // 3
